@@ -102,7 +102,7 @@ func c19(args []string) {
 	// ---- combinators
 	for _, b := range []int{1, 3} {
 		for k := 1; k <= 4; k++ {
-			nshapes := c.Pick(3, 12)
+			nshapes := c.Pick(4, 60)
 			for sh := 0; sh < nshapes; sh++ {
 				lens := make([]int, k)
 				prod := 1
@@ -211,7 +211,7 @@ func c19(args []string) {
 	}
 	// ---- selector: every outcome pattern
 	for k := 1; k <= 3; k++ {
-		for n := 0; n <= c.Pick(4, 6); n++ {
+		for n := 0; n <= c.Pick(4, 7); n++ {
 			for mask := 0; mask < 1<<uint(n); mask++ {
 				if !c.Thorough() && (mask+k+n)%3 != 0 {
 					continue
@@ -302,7 +302,7 @@ func c19(args []string) {
 	}
 	// ---- concatenator
 	for _, fanin := range []bool{false, true} {
-		for n := 0; n <= c.Pick(4, 7); n++ {
+		for n := 0; n <= c.Pick(4, 12); n++ {
 			for _, group := range []bool{false, true} {
 				s := &spec.Spec{Name: "concat", MaxTasks: 4, Sources: map[string]string{}}
 				nsrc := 1
